@@ -418,7 +418,7 @@ def plan(tier):
 
 # ---- fold shards: a constant tree in a foldable position must be folded to the value Python gives it
 FOLD_SITES = [("sleep({})", r"delay\(([^;]*)\);"), ("analog_write(5, {})", r"analogWrite\(5, ([^;]*)\);"), ("led.blink({}, 1)", r"delay\(([^;]*)\);"),
-              ("x = {}\nsleep(x)", r"delay\(([^;]*)\);")]
+              ("x = {}\nsleep(x)", r"(?:int|long|float|double|bool) x = ([^;]*);")]
 FOLD_HEAD = "from Reduino.Actuators import Led\nfrom Reduino.Core import analog_write\nfrom Reduino.Utils import sleep\nled = Led(9)\n"
 _NUM = __import__("re").compile(r"^\(?-?\d+(\.\d+)?(e-?\d+)?f?\)?$")
 
